@@ -150,7 +150,7 @@ func ruleC03(c *Ctx) {
 	c.rule("C03-R1", "guard inventory: every accepting path of (*SAMLServiceProvider).Validate (validateResponseAttributes inlined) carries each of the 17 required facts + the expiry comparison; per-assertion facts come from the generic iteration of a loop over the whole of response.Assertions")
 	c.rule("C03-R2", "typed error: the path decided by the negation of a row returns ErrInvalidValue/ErrMissingElement/ErrParsing whose Key/Tag/Attribute constants name the element")
 	c.rule("C03-R3", "validation dominates acceptance: every accepting path of ValidateEncodedResponse ends with sp.Validate(returned object) == nil and no later store to its Assertions")
-	res := c.kernel("(*SAMLServiceProvider).Validate", "(*SAMLServiceProvider).validateResponseAttributes")
+	res := c.kernel("(*SAMLServiceProvider).Validate", "*")
 	if res != nil {
 		rows := ssoRows()
 		guardInventory(c, "C03-R1", res, rows, nil)
@@ -170,7 +170,7 @@ func ruleC03(c *Ctx) {
 	}
 	validationDominates(c, "C03-R3", "(*SAMLServiceProvider).ValidateEncodedResponse", "(*SAMLServiceProvider).Validate", 3)
 	// RetrieveAssertionInfo: errors of ValidateEncodedResponse are wrapped in ErrVerification, never dropped
-	ri := c.kernel("(*SAMLServiceProvider).RetrieveAssertionInfo")
+	ri := c.kernel("(*SAMLServiceProvider).RetrieveAssertionInfo", retrieveInline...)
 	if ri != nil {
 		n := 0
 		for _, t := range ri.Terms {
@@ -308,7 +308,11 @@ func labelReturn(c *Ctx, t *Terminal) string {
 	return strings.Join(tags, "+")
 }
 
-var inboundInline = []string{"(*SAMLServiceProvider).validateElementSignature", "(*SAMLServiceProvider).validationContext", "xmlUnmarshalElement"}
+// inbound validators: inline every helper except the sub-kernels that are analysed on their own
+var inboundInline = []string{"*", "-parseResponse", "-(*SAMLServiceProvider).decryptAssertions", "-(*SAMLServiceProvider).Validate",
+	"-(*SAMLServiceProvider).ValidateDecodedLogoutResponse", "-(*SAMLServiceProvider).ValidateDecodedLogoutRequest"}
+
+var retrieveInline = []string{"*", "-(*SAMLServiceProvider).ValidateEncodedResponse", "-(*SAMLServiceProvider).VerifyAssertionConditions"}
 
 // ---------------------------------------------------------------- C05
 
@@ -320,7 +324,7 @@ func ruleC05(c *Ctx) {
 	c.rule("C05-R5", "the warning is computed on element [0] of the validated response; the hard expiry sits in the all-assertions loop")
 
 	// --- hard expiry in Validate
-	res := c.kernel("(*SAMLServiceProvider).Validate", "(*SAMLServiceProvider).validateResponseAttributes")
+	res := c.kernel("(*SAMLServiceProvider).Validate", "*")
 	if res != nil {
 		fname := shortFn(res.Root)
 		var rel []*Terminal
@@ -412,7 +416,7 @@ func ruleC05(c *Ctx) {
 	noWallClock(c, "C05-R3")
 
 	// --- R5: which assertion
-	ri := c.kernel("(*SAMLServiceProvider).RetrieveAssertionInfo")
+	ri := c.kernel("(*SAMLServiceProvider).RetrieveAssertionInfo", retrieveInline...)
 	if ri != nil {
 		n := 0
 		for _, t := range ri.Terms {
@@ -640,7 +644,7 @@ func ruleC06(c *Ctx) {
 	c.floor("C06-R3/proxy-paths", 4)
 
 	// R4
-	ri := c.kernel("(*SAMLServiceProvider).RetrieveAssertionInfo")
+	ri := c.kernel("(*SAMLServiceProvider).RetrieveAssertionInfo", retrieveInline...)
 	if ri != nil {
 		n := 0
 		for _, t := range ri.Terms {
